@@ -84,7 +84,8 @@ def build_receipt_pdu(seqnum, mid, err, how):
         text = 'sub:001 dlvrd:001 stat:DELIVRD err:000 Text:x'
     tlvs = b''
     if how in ('tlv', 'both'):
-        tlvs = smppref.tlv(0x001E, str(mid).encode() + b'\x00')
+        # some SMSCs leave out the terminating NUL of the C-Octet String
+        tlvs = smppref.tlv(0x001E, str(mid).encode() + (b'\x00' if (seqnum + mid) % 3 else b''))
     return smppref.encode_sm(0x5, seqnum, src=b'1', dst=b'2', esm_class=0x04, data_coding=0, short_message=text.encode('ascii'), tlvs=tlvs)
 
 
